@@ -20,9 +20,13 @@ register('C10', 'proof',
                       'ELECTION / RESTARTING / SHUTTING_DOWN abort all jobs (C08 clause 3, C09 clause 2), those of OFF / FINAL do '
                       'not, and a refused transition (C08 findings) keeps the state: these cases are only covered by the '
                       'periodic check()',
-                      'clause 2 ApplicationJobs.check and clause 4 on_instances_invalidation: contract written '
-                      '(contracts/wip_c10_check.txt) but not converged under the honest re-entrancy discipline - NOT claimed; '
-                      'safe:ValueError@check:582 is refuted there and reproduced natively (findings/C10_check_valueerror_demo.py)',
+                      'clause 2 ApplicationJobs.check: contract written (contracts/wip_c10_check.txt) but not converged under '
+                      'the honest re-entrancy discipline - NOT claimed; safe:ValueError@check:582 is refuted there and '
+                      'reproduced natively (findings/C10_check_valueerror_demo.py)',
+                      'clause 4 is proved at job level (ApplicationJobs.on_instances_invalidation: every command in flight on a '
+                      'lost instance leaves, the others stay, no exception; shape validity: duplicate-free in-flight list, '
+                      'identifier list distinct from it); Commander.on_instances_invalidation (the loops over the jobs, then '
+                      'next()) is drafted in contracts/wip_c10_commander_inval.txt, not converged - NOT claimed',
                       'clause 5 measure lemma: not stated as a lemma; it is the arithmetic content of the timed_out contracts',
                       're-entrancy exclusion: Stopper.after -> starter.start_process -> add_commands may add a command to the '
                       'plan of a Starter job during a Stopper chain (outside the assumed call-out discipline)'],
@@ -55,8 +59,10 @@ register('C03', 'proof',
                       'commands of a group triggered in the same call. With the weak re-entrancy discipline assumed for '
                       'process_job, "commands in flight after next() come from the last popped group" is not provable',
                       'Commander.next (application level, clause 3), Starter.store_application / start_applications (sequence 0 '
-                      'never planned, clause 1), Starter.after, ApplicationJobs.on_event / check / on_instances_invalidation: no '
-                      'contract yet (store_application needs comprehensions that allocate objects, not supported by the engine)',
+                      'never planned, clause 1), Starter.after, ApplicationJobs.on_event / check: no '
+                      'contract yet (store_application needs comprehensions that allocate objects, not supported by the engine); '
+                      'ApplicationJobs.on_instances_invalidation IS under contract (contracts/c10.py: host lost = starting '
+                      'failure for every dropped command, ABORT / STOP wipe the plan, STOP sets stop_request)',
                       'ApplicationStartJobs.process_job is taken by contract (assumed): its placement callees belong to C04/C14/C16',
                       'termination of the recursion of next() (len(planned_jobs) decreases) is not an engine obligation',
                       'add_commands (user start_process merged into a running job) is outside the statement scope'],
@@ -377,8 +383,11 @@ register('C06', 'proof',
          'conversely a Master taking no action saw no crash or a CONTINUE / RESTART_PROCESS strategy or a forced state.',
          not_decided=['trigger_* (deferral while the application has Starter/Stopper jobs, one Stopper call per job): '
                       'contract of trigger_jobs is ASSUMED (only removes elements), not verified - left undone',
-                      'Commander.on_instances_invalidation (what the Starter / Stopper drop): commander group; here only that '
-                      'it is called (C10 clauses)',
+                      'ApplicationJobs.on_instances_invalidation is under contract (contracts/c10.py + decision facet '
+                      'contracts/c06_pending.py): processes of planned and of dropped commands leave failed_processes, nothing '
+                      'else does, nothing enters; the process of a command in flight on a surviving instance does NOT leave '
+                      '(refuted, finding C06-pending-on-survivor); the Commander-level loop over the jobs is not converged '
+                      '(contracts/wip_c10_commander_inval.txt)',
                       '"each lost process gets a job" composes the per-iteration clause with the meta-fact that a for-loop over '
                       'a set visits each element once',
                       'the Master-only guard is evaluated on the local declaration (is_master); that at most one instance '
